@@ -80,6 +80,11 @@ def shapes():
     class Loose:
         tag = h.Param(dtype=_U[int, str], desc="tag", default=0)
         w = h.Param(dtype=_Any, desc="w", default=1)
+    @h.paramclass
+    class Fact:
+        k = h.Param(dtype=int, desc="k", default=0)
+        u = h.Param(dtype=h.Instantiable, desc="u", default_factory=lambda: h.Nmos())
+        t = h.Param(dtype=tuple, desc="t", default_factory=lambda: (1, 2))
     long_ = "L" * 70
     leafA = h.Module(name="LeafA")
     leafB = h.Module(name="LeafB")
@@ -92,6 +97,7 @@ def shapes():
                 dict(n=1, f=0.1 + 0.2, o=None), dict(n=1, f=0.3, o=None), dict(n=10, f=1.0, o="a=b c")],
         Loose: [dict(tag=1, w=1), dict(tag="1", w=1), dict(tag=1, w="1"), dict(tag="a", w=None), dict(tag="a", w="None"),
                 dict(tag=0, w=1.0), dict(tag=0, w=True)],
+        Fact: [dict(), dict(u=h.Pmos()), dict(u=h.Nmos(w=2)), dict(t=(1, 3)), dict(k=1), dict(t=(1, 2), u=h.Nmos())],
         Rich: [dict(), dict(c=Color.BLUE), dict(i=Inner(k=2)), dict(i=Inner(t="ss")), dict(p=1000 * h.prefix.m),
                dict(p=1 * h.prefix.UNIT), dict(p="w/5"), dict(p=2), dict(m=leafA), dict(m=leafB), dict(m=h.R(r=1)),
                dict(m=h.R(r=2))],
@@ -99,7 +105,7 @@ def shapes():
     return vals
 
 
-SHAPES = ("Scal", "Mixed", "Loose", "Rich")
+SHAPES = ("Scal", "Mixed", "Loose", "Fact", "Rich")
 
 
 def check_family(only):
@@ -139,7 +145,9 @@ def check_family(only):
             inner = wm.instances["i"].of
             if not (m1 is m2 is m3 is inner):
                 return ("memo.identity", f"{P.__name__}{kw}: equal parameters returned different modules", w)
-            prior = [mm for pp, mm in seen if pp == p]
+            def vals_of(x):
+                return tuple(getattr(x, f) for f in x.__params__)
+            prior = [mm for pp, mm in seen if vals_of(pp) == vals_of(p)]
             if prior:
                 if prior[0] is not m1 or calls["n"] != before:
                     return ("memo.equal-params", f"{P.__name__}{kw}: equal to an earlier call but rebuilt", w)
@@ -147,7 +155,7 @@ def check_family(only):
                 if calls["n"] != before + 1:
                     return ("memo.body-runs", f"{P.__name__}{kw}: body ran {calls['n'] - before} times", w)
             for pp, mm in seen:
-                if pp != p and mm is m1:
+                if vals_of(pp) != vals_of(p) and mm is m1:
                     return ("memo.unequal-shared", f"{P.__name__}: {pp!r} and {p!r} share one module", w)
             seen.append((p, m1))
         # exported names: distinct modules have distinct names, one module one name; a design holding all of them exports
@@ -197,17 +205,97 @@ def check_family(only):
     return None
 
 
-def check_handed_on(_):
-    """a module handed on from another generator keeps one name (MosStack -> Series)"""
+def check_handed_on(case):
+    """one module, one name: a module handed on by a generator (another one, the same one with normalised parameters, or
+    a chain of them) keeps the name it was given and exported under"""
     import hdl21 as h
-    from hdl21.generators import MosStack, Series
-    inner = Series(unit=h.Nmos(), conns=("d", "s"), nser=3)
-    n0 = inner.name
-    h.to_proto(inner)
-    outer = MosStack(unit=h.Nmos(), nser=3)
-    if outer is inner and inner.name != n0:
-        return ("names.renamed-after-export", f"module exported as {n0!r} was renamed to {inner.name!r} when another "
-                                              f"generator handed it on", {"case": "handed-on"})
+    w = {"case": case}
+    if case == "handed-on":
+        from hdl21.generators import MosStack, Series
+        inner = Series(unit=h.Nmos(), conns=("d", "s"), nser=3)
+        n0 = inner.name
+        h.to_proto(inner)
+        outer = MosStack(unit=h.Nmos(), nser=3)
+        if outer is inner and inner.name != n0:
+            return ("names.renamed-after-export", f"module exported as {n0!r} was renamed to {inner.name!r} when another "
+                                                  f"generator handed it on", w)
+        return None
+
+    @h.paramclass
+    class WP:
+        width = h.Param(dtype=int, desc="width")
+
+    @h.generator
+    def EvenBus(p: WP) -> h.Module:
+        if p.width % 2:
+            return EvenBus(width=p.width + 1)      # normalisation: the same generator, other parameters
+        m = h.Module()
+        m.a = h.Port(width=p.width)
+        return m
+
+    @h.generator
+    def Outer(p: WP) -> h.Module:
+        return EvenBus(p)
+
+    @h.generator
+    def Outermost(p: WP) -> h.Module:
+        return Outer(p)
+    if case == "self-handed-on":
+        orders = [(4, 3), (3, 4), (5, 6, 5)]
+        for order in orders:
+            names = {}
+            for wd in order:
+                m = EvenBus(width=wd)
+                target = wd + wd % 2
+                if m is not EvenBus(width=target):
+                    return ("names.normalised-not-shared", f"EvenBus({wd}) is not the module of EvenBus({target})", w)
+                pk = h.to_proto(m)
+                exported = [x.name for x in pk.modules]
+                prev = names.setdefault(id(m), (m.name, exported))
+                if prev != (m.name, exported):
+                    return ("names.renamed-after-export", f"module of EvenBus(width={target}) was {prev[0]!r} and is "
+                                                          f"{m.name!r} after EvenBus(width={wd}) handed it along", w)
+        return None
+    if case == "chain":
+        base = EvenBus(width=8)
+        n0 = base.name
+        a = Outermost(width=8)
+        b = Outer(width=8)
+        c = Outermost(width=7)
+        if not (a is base and b is base and c is base) or base.name != n0:
+            return ("names.renamed-after-export", f"chain of generators: module {n0!r} is now {base.name!r} "
+                                                  f"(shared: {a is base}, {b is base}, {c is base})", w)
+        return None
+    return None
+
+
+def check_paramclass_fields(_):
+    """structural: every field of every paramclass takes part in == and hash (else unequal parameters share a cache
+    entry): the library's own paramclasses and freshly declared ones with default / default_factory / required fields"""
+    import dataclasses
+    import importlib
+    import pkgutil
+    import hdl21 as h
+    from hdl21.params import isparamclass
+    classes = []
+    for mi in pkgutil.walk_packages(h.__path__, "hdl21."):
+        if ".tests" in mi.name or "examples" in mi.name:
+            continue
+        try:
+            mod = importlib.import_module(mi.name)
+        except Exception:
+            continue
+        for v in vars(mod).values():
+            if isinstance(v, type) and isparamclass(v) and v not in classes:
+                classes.append(v)
+    classes += list(shapes().keys())
+    if len(classes) < 15:
+        raise RuntimeError(f"only {len(classes)} paramclasses found")
+    for c in classes:
+        for f in dataclasses.fields(c):
+            if not f.compare or f.hash is False:
+                return ("paramclass.field-not-compared", f"{c.__name__}.{f.name} is left out of ==/hash: calls differing "
+                                                         f"only in it share one module", {"case": "paramclass-fields"})
     return None
 
 
@@ -236,15 +324,26 @@ def run(ctx):
                     bound="33 parameter values", key_of=repr)
     ctx.bounded[-1]["evaluations"] = sum(len(v) for v in shapes().values()) * 4
     ctx.bounded[-1]["distinct_nontrivial"] = sum(len(v) for v in shapes().values())
-    ctx.run_bounded("handed-on-module", ["handed-on"], check_handed_on,
-                    rule="a generator returning another generator's module", bound="1 program", key_of=repr)
+    ctx.verify(cg.run_engine(), cg.VERIFY_RUN, min_obligations={"hdl21.generator:_run": 20})
+    ctx.assumptions.append("generator bodies (user code) keep the cache bookkeeping and do not mutate Generator / "
+                           "GeneratorCall objects (assumed contract GenBody); _unique_name / hasparams are abstracted "
+                           "as functions of their argument in the proof of _run")
+    ctx.run_bounded("handed-on-module", ["handed-on", "self-handed-on", "chain"], check_handed_on,
+                    rule="a generator returning another generator's module, its own module for normalised parameters "
+                         "(3 call orders), a chain of three generators; names and exported names before/after",
+                    bound="3 programs", key_of=repr)
+    ctx.run_bounded("paramclass-fields", ["all"], check_paramclass_fields,
+                    rule="dataclass fields of every paramclass importable from hdl21 + the family's shapes: compare and "
+                         "hash flags", bound="all paramclasses of the library", key_of=repr)
     return INFO
 
 
 def replay(payload):
     inp = payload.get("input") or (payload.get("replay") or {}).get("input") or {}
-    if inp.get("case") == "handed-on":
-        r = check_handed_on(0)
+    if inp.get("case") in ("handed-on", "self-handed-on", "chain"):
+        r = check_handed_on(inp["case"])
+    elif inp.get("case") == "paramclass-fields":
+        r = check_paramclass_fields(0)
     elif "case" in inp:
         r = check_family(inp["case"])
     elif "params1" in inp:
